@@ -355,6 +355,13 @@ abbrev Name := List Nat
 def Name.cols (n : Name) : Nat := n.sum
 /-- `prependname_width`: max of `UnicodeWidthStr::width` over the files with a message (0 without `-w`) -/
 def alignWidth (names : List Name) : Nat := names.foldl (fun w n => max w n.cols) 0
+/-- the names the `-w` width ranges over: every source carries its name and whether it has a message
+at first print; `overPrinting` = the loop runs over `pathid_with_logmessages` (else over all sources) -/
+def alignNames (overPrinting : Bool) (srcs : List (Name × Bool)) : List Name :=
+  (srcs.filter fun s => !overPrinting || s.2).map (·.1)
+/-- the code as extracted -/
+def alignWidthSrcs (srcs : List (Name × Bool)) : Nat :=
+  alignWidth (alignNames S4V.Gen.Print.ALIGN_OVER_PRINTING_SOURCES srcs)
 /-- what the padding subtracts from the common width: display columns or `char` count -/
 def padMeasure (byCols : Bool) (n : Name) : Nat := if byCols then n.cols else n.length
 /-- padding with spaces (one column each) -/
